@@ -21,7 +21,13 @@ import (
 	"verifmc/c13calls"
 )
 
-var goEnv = []string{"GOFLAGS=-mod=mod", "GOPROXY=off", "GOSUMDB=off", "GOTOOLCHAIN=local"}
+var goEnv = func() []string {
+	flags := os.Getenv("GOFLAGS")
+	if flags == "" {
+		flags = "-mod=mod"
+	}
+	return []string{"GOFLAGS=" + flags, "GOPROXY=off", "GOSUMDB=off", "GOTOOLCHAIN=local"}
+}()
 
 func mcDir() string { return filepath.Join(verifRoot, "mc") }
 
